@@ -47,7 +47,8 @@ structure Env (R : Type) where
   ellpsKnown : Str → Bool
 
 def pipelineTag : Str := S "pipeline"
-def pipelineGamut : List OpParameter := Gen.gamut_pipeline_GAMUT
+/-- `pipeline::new` parses its own parameters with an empty gamut: modifiers belong to the steps -/
+def pipelineGamut : List OpParameter := []
 
 section inst
 variable {R : Type} [Scalar R]
@@ -159,8 +160,9 @@ end inst
 
 variable {α : Type}
 
-/-- semantics of the leaf operators: tag, parameters, *effective* direction, data -/
-abbrev LeafSem (α : Type) := Node α → Dir → List (Coor α) → List (Coor α) × Nat
+/-- semantics of the leaf operators: constructor tag, parameters, *effective* direction, data
+(no built-in looks at its own `inverted` flag: `Op::apply` has already taken it into account) -/
+abbrev LeafSem (α : Type) := Str → Parsed α → Dir → List (Coor α) → List (Coor α) × Nat
 
 /-- the stack related meaning of a step inside a pipeline (dispatch is on `params.name`) -/
 inductive StackStep where
@@ -201,7 +203,7 @@ def apply (sem : LeafSem α) (nan : α) (actionOf : ActionOf α) : Op α → Dir
         | .fwd => runFwd sem nan actionOf steps ⟨[], data, none⟩
         | .inv => runInv sem nan actionOf steps ⟨[], data, none⟩
       (s.data, match s.n with | none => data.length | some k => k)
-    else sem node eff data
+    else sem node.tag node.params eff data
 
 /-- the loop of `pipeline_fwd` -/
 def runFwd (sem : LeafSem α) (nan : α) (actionOf : ActionOf α) : List (Op α) → PState α → PState α
@@ -232,5 +234,19 @@ def runInv (sem : LeafSem α) (nan : α) (actionOf : ActionOf α) : List (Op α)
     | some (.stack none) => s.record s.cols s.data 0
     | none => let r := apply sem nan actionOf step .inv s.data; s.record s.cols r.1 r.2
 end
+
+end Geodesy
+
+namespace Geodesy
+open Text
+variable {R : Type} [Scalar R]
+
+/-- unfolding of `instantiate` for a pipeline definition -/
+theorem instantiate_pipeline (env : Env R) (fuel : Nat) (p : RawParameters)
+    (hdeep : p.nestingTooDeep = false) (hpipe : isPipeline p.definition = true) :
+    instantiate env (fuel + 1) p =
+      pipelineFinish env p (mapExcept (fun s => instantiate env fuel (p.next s)) (splitIntoSteps p.definition)) := by
+  rw [instantiate]
+  simp only [hdeep, hpipe, Bool.false_eq_true, if_false, if_true]
 
 end Geodesy
